@@ -228,15 +228,18 @@ def _unquote_summary(interp, pos, kw, node):
     return Sym("dec(%s)" % name, "str", True)
 
 
-def parse_run(ctx, func, text, dialect, pattern, ignore=False):
+def parse_run(ctx, func, text, dialect, pattern, ignore=False, shared_default=None):
     from .absint import RegexVal, TypeVal
     ov = {("constants", "ignore_url_escape_characters"): ignore,
           ("feature", "dict_class"): TypeVal("dict"), ("attributes", "dict_class"): TypeVal("dict"), ("parser", "dict_class"): TypeVal("dict")}
     for name_, pattern_ in (pattern.items() if isinstance(pattern, dict) else ([pattern] if pattern is not None else [])):
         ov[("parser", name_)] = RegexVal(pattern_)
+    if shared_default is not None:
+        ov[("constants", "dialect")] = shared_default         # the very object: a store into it is visible to the caller
     interp = Interp(ctx, overrides=ov)
     interp.ext_summaries["urllib.parse.unquote"] = _unquote_summary
     interp.hole_free_of = STRUCTURAL
+    interp.holes_containing = {"enc(": "%"}      # an encoded value stands for text with at least one escape in it
     return interp.run(func, {"keyval_str": text, "dialect": dialect})
 
 
